@@ -119,7 +119,9 @@ def decode_exec(p, order, api="recv", finish=True, cb=None, probe="each", releas
     return out
 
 
-def encode_exec(p, order=None, slots="buf", s=0, release_at=None, both=False):
+def encode_exec(p, order=None, slots="buf", s=0, release_at=None, both=False, rebuild=None):
+    """rebuild = (source index, [ESIs]): after the first pass the application zeroes that source symbol and asks for
+    those repair symbols again, into the same buffers (identity payloads only; in ESI order for the staircase)"""
     out = ["create %d %d enc%s" % (s, p.codec, " both" if both else ""), p.params_line(s)]
     esis = list(order) if order is not None else list(range(p.k, p.n))
     for i, e in enumerate(esis):
@@ -127,6 +129,10 @@ def encode_exec(p, order=None, slots="buf", s=0, release_at=None, both=False):
             break
         slot = slots if isinstance(slots, str) else slots[i % len(slots)]
         out.append("build %d %d %s" % (s, e, slot))
+    if rebuild and release_at is None and p.payload == "id":
+        out.append("zero %d %d" % (s, rebuild[0]))
+        for e in rebuild[1]:
+            out.append("build %d %d buf" % (s, e))
     out.append("release %d" % s)
     return out
 
